@@ -107,12 +107,17 @@ func (g *Gen) apex(z Name, o Opts) {
 		if l == nil || g.R.Chance(1, 2) {
 			l = [][]byte{locA, locB}[g.R.Intn(2)]
 		}
-		shape := g.R.Pick([]int{3, 2, 2})
-		if shape != 1 {
-			g.NS(z, z.Child("ns-"+fmt.Sprintf("%x", l)), "", g.maybeIP(), l)
-		}
-		if shape != 0 {
-			g.SOA(z, l)
+		shape := g.R.Pick([]int{3, 2, 2, 2})
+		if shape == 3 {
+			// the located apex written as one "." line (SOA + NS + glue, all tagged)
+			g.Dot(z, "x"+fmt.Sprintf("%x", l), g.maybeIP(), l)
+		} else {
+			if shape != 1 {
+				g.NS(z, z.Child("ns-"+fmt.Sprintf("%x", l)), "", g.maybeIP(), l)
+			}
+			if shape != 0 {
+				g.SOA(z, l)
+			}
 		}
 	}
 }
